@@ -445,4 +445,39 @@ def _replace(root: ast.expr, old: ast.AST, new: ast.expr) -> ast.expr:
 
 stretch_monotone.rule_id = "C14.STRETCH-MONOTONE"
 
-RULES = [edge_set, side_table, uniform, face_symmetry, no_stale_cache, trig_domain, shape_only, stretch_monotone]
+def scale_free_guards(repo: Repo) -> RuleRun:
+    """'unchanged by ... uniformly scaling the geometry': the quality kernels divide by lengths and areas and protect the
+    division with the library's small number. As a FLOOR (max(x, VSMALL), np.maximum, np.clip, a comparison) the guard changes
+    nothing for a real cell; ADDED to the divisor (x + VSMALL) it shortens every 'unit' vector by VSMALL / x - a relative error
+    that depends on the size of the cell and that arccos (infinitely steep at 1) turns into degrees."""
+    r = RuleRun(PROP, "C14.SCALE-FREE-GUARDS", floor=3, what="the small-number guard of the quality kernels is a floor (max / maximum / clip / comparison), never a term added to a length or an area")
+    mod = repo.module("optimize.cell")
+    SMALL = {"VSMALL", "TOL"}
+    n = 0
+    nth = {}
+    for fn in sorted(repo.all_functions(), key=lambda f: f.qualname):
+        if fn.module is not mod:
+            continue
+        for x in ast.walk(fn.node):
+            if isinstance(x, ast.Name) and x.id in SMALL or isinstance(x, ast.Attribute) and x.attr in SMALL:
+                p_ = parent(x)
+                n += 1
+                k = nth.get(fn.qualname, 0)
+                nth[fn.qualname] = k + 1
+                added = isinstance(p_, ast.BinOp) and isinstance(p_.op, (ast.Add, ast.Sub))
+                r.check(
+                    not added,
+                    fn,
+                    f"'{ast.unparse(p_)[:60]}': guard used as a bound",
+                    f"{fn.qualname}: '{ast.unparse(p_)[:80]}' adds the small-number guard to a quantity that scales with the cell: the result of the division is off by a factor (1 - guard/x), "
+                    "so the value of a perfect cube is not 0 and changes with its size (27 at size 0.01, 0.17 at size 1)",
+                    p_,
+                    key=f"guard#{k}",
+                )
+    r.require(n >= 3, f"only {n} uses of the small-number guard found in optimize.cell")
+    return r
+
+
+scale_free_guards.rule_id = "C14.SCALE-FREE-GUARDS"
+
+RULES = [edge_set, side_table, uniform, face_symmetry, no_stale_cache, trig_domain, shape_only, stretch_monotone, scale_free_guards]
